@@ -342,6 +342,55 @@ def build() -> Check:
                              "(expected one per input, in input order)", t))
         ck.ob("R1.replay-item-per-input", fn_construct(f_replay), not badr and trs, (badr[0][0] + ": " + trace_sig(badr[0][1])[-300:]) if badr else "", cell=st)
     ck.floor("replay_paths", n_rp, 7)
+    # mixed histories: every item carries what was recorded for *its own* child (nothing carries over from a neighbour)
+    from sa.interp import SpecialObj
+    import itertools as _it
+    n_mixed = 0
+    badm = []
+    for combo in _it.product(("SUCCEEDED", "FAILED", "STARTED", ABSENT), repeat=2):
+        def kw_m(it, state, combo=combo):
+            calls = []
+
+            def ops_get(interp, args, kwargs, node):
+                i = len(calls)
+                calls.append(args[0].key() if args else "?")
+                stn = combo[i] if i < len(combo) else ABSENT
+                interp.emit("READ", node, gen="0.0", status=stn, id=calls[-1])
+                if stn == ABSENT:
+                    return NONE
+                op = Obj(pm.op_cls, label=f"rec{i}")
+                op.fields["status"] = EnumVal(pm.status_cls.fq, stn, pm.status_cls.enum_members[stn])
+                op.fields["operation_type"] = EnumVal(pm.optype_cls.fq, "CONTEXT", pm.optype_cls.enum_members["CONTEXT"])
+                return op
+
+            state.fields["operations"] = SpecialObj("state.operations", {"get": ops_get})
+            return {"execution_state": state, "executor_context": Sym("executor_context", TypeRef(classes=(prog.cls("context", "DurableContext").fq,)))}
+
+        def h_item_m(it, fn, sv, a, k, n):
+            ex_ = a[1] if len(a) > 1 else k.get("executable")
+            return Sym(f"value_of<{ex_.key() if ex_ is not None else '?'}>")
+
+        trs = pm.run_function(f_replay, self_factory_r, kw_m, cell=("replay-mixed", "/".join(combo)), status=ABSENT, optype="CONTEXT",
+                              extra_hooks={f_item.fq: h_item_m}, loop_iters=2)
+        for t in trs:
+            n_mixed += 1
+            v = t.value if t.outcome == "return" else None
+            items = v.fields.get("all") if isinstance(v, Obj) else None
+            if not (isinstance(items, SeqVal) and len(items.items) == 2 and all(isinstance(x, Obj) for x in items.items)):
+                continue  # judged by R1.replay-item-per-input
+            for i, (bi, stn) in enumerate(zip(items.items, combo)):
+                rk, ek = bi.fields.get("result", NONE).key(), bi.fields.get("error", NONE).key()
+                want_r = "exe%d" % i if stn == "SUCCEEDED" else "None"
+                if (want_r == "None") != (rk == "None") or (want_r != "None" and want_r not in rk):
+                    badm.append(f"children recorded {list(combo)}: item {i} carries result {rk} (expected {'its own value' if stn == 'SUCCEEDED' else 'none'})")
+                no_err = any(kk.startswith(f"rec{i}.") and kk.endswith("is None") and vv is True for kk, vv in t.pc)
+                if stn == "FAILED":
+                    if f"rec{i}" not in ek and not no_err:
+                        badm.append(f"children recorded {list(combo)}: item {i} carries error {ek} (expected the one recorded for it)")
+                elif ek != "None":
+                    badm.append(f"children recorded {list(combo)}: item {i} ({stn}) carries error {ek}")
+    ck.floor("mixed_replay_paths", n_mixed, 16)
+    ck.ob("R1.replay-item-carries-own-outcome", fn_construct(f_replay), not badm, "; ".join(badm[:2]) or f"{n_mixed} paths over 16 status pairs")
     return ck
 
 
